@@ -15,8 +15,10 @@ import progs
 import events
 import specdiff
 
-THEOREM_MODULES = ["Yarel.Props.C08", "Yarel.Props.C04", "Yarel.Props.ModelLimits", "Yarel.Props.SpecExceptions"]
-REQUIRED_THEOREMS = ["throw_reaches_innermost_handler", "throw_enters_catch", "completion_enters_finally", "completion_in_catch_enters_finally",
+THEOREM_MODULES = ["Yarel.Props.C08", "Yarel.Props.C04", "Yarel.Props.ModelLimits", "Yarel.Props.SpecExceptions", "Yarel.Props.FnsTie.HandlerSteps"]
+REQUIRED_THEOREMS = ["vm_unwind_contract", "vm_unwind_uncaught", "vm_push_handler_effect", "vm_pop_handler_effect", "vm_jump_finally_effect",
+                     "vm_end_finally_pending_return", "vm_end_finally_nothing_pending", "vm_end_finally_rethrows_uncaught", "vm_throw_effect",
+                     "throw_reaches_innermost_handler", "throw_enters_catch", "completion_enters_finally", "completion_in_catch_enters_finally",
                      "normal_end_of_try_enters_finally", "finally_end_resumes", "finally_end_rethrows", "throw_leaves_call",
                      "uncaught_at_fiber_bottom_ends_run", "unwind_contract", "unwind_uncaught", "handler_lifo", "unwind_selects_innermost", "balanced_region",
                      "finally_flag", "handlers_per_fiber", "verify_sound"]
